@@ -2,7 +2,8 @@ import CsVerif.Lemmas.C09
 /-! C09 property theorems: the XorEncoded file view refines a read-only file over the decoded bytes;
 candidate detection (parameterised theorems first, then — section "detection with the real scanner" — `from_file` with
 `utils.iter_find_needle` itself, model `C15.iterFindNeedle`, for every buffer size and without any scanner hypothesis);
-seeks to negative logical positions characterised exactly (they do NOT refine a plain file: `history_refines_all_seeks_false`).
+the full refinement for EVERY history (`history_refines_all_seeks`, `trace_refines_all_seeks`; the pre-13416c7 `seek` refuted:
+`history_refines_all_seeks_refutes_old`).
 Vocabulary (`Layout`, `Abs`, `plainRead`, `XorFile.withPos`, `realHits`, `sizeOffsets`, `realCandidates`, `SizeRel`, `mzVerdict`,
 `rawTarget`, `belowStart`, `logicalTarget`, `plainBelowStart`) is in `Lemmas/C09.lean`, the model (`fromFileReal`, …) and the
 specification (`rollDecode`, `plainRun`, `seeksNonneg`) in `Model/C09.lean`. -/
@@ -580,7 +581,7 @@ theorem detect_buffer_independent (B B' : Nat) (f : PyFile) (maxrange : Nat)
     · subst hm; rw [realHits_nolimit B (by omega), realHits_nolimit B' (by omega)]
     · rw [realHits_large_buffer B f maxrange hm h1, realHits_large_buffer B' f maxrange hm h2]
 
-/-! ### seeks whose logical target is negative -/
+/-! ### every history: seeks with any offset and whence -/
 
 /-- `read(n)` in EVERY state of the object (negative logical position, wrong nonce offset, cursor past the end): it
 never raises, changes nothing but the cursor, and the reported position advances by exactly the number of bytes returned. -/
@@ -592,59 +593,134 @@ theorem read_advances_everywhere (x : XorFile) (n : Option Int) :
   simp only [tell, PyFile.tell, XorFile.withPos]
   omega
 
-/-- `seek(off, whence)` of the view, exactly, for every state and every argument: the raw target is
+/-- `seek(off, whence)` of the view (current code, after fix 13416c7), exactly, for every state and every argument:
+a negative absolute offset and an unknown `whence` raise ValueError and nothing moves; otherwise the logical target
+(`off`, `tell() + off`, `raw size − (nonce_offset + 8) + off`) is clamped at 0, the seek never raises, returns the raw
+offset `max(target, 0) + nonce_offset + 8`, changes nothing but the cursor, and `tell()` then reports `max(target, 0)`
+— never a negative position, whatever the kind of the underlying file. -/
+theorem seek_exact (x : XorFile) (off : Int) (wh : Nat) :
+    (wh = 0 → off < 0 → seek x off wh = .error .valueError) ∧
+    (2 < wh → seek x off wh = .error .valueError) ∧
+    (wh ≤ 2 → ¬ (wh = 0 ∧ off < 0) →
+      ∃ v : Nat, (v : Int) = max (viewTarget x off wh) 0 + ((x.nonceOff : Int) + 8) ∧
+        seek x off wh = .ok (v, x.withPos v) ∧ tell (x.withPos v) = max (viewTarget x off wh) 0) := by
+  refine ⟨?_, seek_bad_whence x off wh, ?_⟩
+  · rintro rfl h; exact seek_set_neg x off h
+  · intro hwh hne
+    have htell : ∀ v : Nat, (v : Int) = max (viewTarget x off wh) 0 + ((x.nonceOff : Int) + 8) →
+        tell (x.withPos v) = max (viewTarget x off wh) 0 := by
+      intro v hv; simp only [tell, PyFile.tell, XorFile.withPos]; omega
+    match wh, hwh, hne with
+    | 0, _, hne =>
+      have h0 : 0 ≤ off := by
+        apply Classical.byContradiction; intro h; exact hne ⟨rfl, by omega⟩
+      refine ⟨(off + (x.nonceOff : Int) + 8).toNat, ?_, seek_set_eq x off _ h0 (by omega), htell _ ?_⟩ <;>
+        simp only [viewTarget] <;> omega
+    | 1, _, _ =>
+      refine ⟨(max (tell x + off) 0 + (x.nonceOff : Int) + 8).toNat, ?_, seek_cur_eq x off _ (by omega), htell _ ?_⟩ <;>
+        simp only [viewTarget] <;> omega
+    | 2, _, _ =>
+      refine ⟨(max ((x.fh.data.length : Int) - ((x.nonceOff : Int) + 8) + off) 0 + (x.nonceOff : Int) + 8).toNat, ?_,
+        seek_end_eq x off _ (by omega), htell _ ?_⟩ <;> simp only [viewTarget] <;> omega
+
+/-- The refinement statement without any hypothesis on the seeks, for a history runner `runF`: for EVERY history —
+seeks with any integer offset and any `whence`, reads with any `n`, `tell` — from every logical position `p ≥ 0`,
+the view (over a BytesIO or an OS file) does exactly what `io.BytesIO` over the decoded bytes does: the same
+exception at the same operation, or the same outputs (`seek` returning the raw offset, i.e. the logical one shifted by
+`nonce_offset + 8`) and the abstracting final state. -/
+def HistoryRefinesAllSeeks (runF : XorFile → List Op → Py (List Out × XorFile)) : Prop :=
+  ∀ (stub nonce size enc : Bytes) (x : XorFile), Layout stub nonce size enc x →
+    ∀ (p : Nat), x.fh.pos = stub.length + 8 + p → ∀ (ops : List Op),
+      match plainRun { data := rollDecode nonce enc, pos := p, kind := .bytesIO } ops with
+      | .ok (outs, pf') =>
+        runF x ops = .ok (outs.map (Out.shift (stub.length + 8)), x.withPos (stub.length + 8 + pf'.pos))
+      | .error e => runF x ops = .error e
+
+/-- **Full refinement** (current code): holds for every history and both kinds of underlying file. -/
+theorem history_refines_all_seeks : HistoryRefinesAllSeeks run := by
+  intro stub nonce size enc x hL p hpos ops
+  have hA : Abs stub nonce size enc x { data := rollDecode nonce enc, pos := p, kind := .bytesIO } := ⟨hL, rfl, hpos⟩
+  have h := run_refines_all ops hA rfl
+  cases hp : plainRun { data := rollDecode nonce enc, pos := p, kind := .bytesIO } ops with
+  | error e => rw [hp] at h; exact h
+  | ok r =>
+    obtain ⟨outs, pf'⟩ := r
+    rw [hp] at h
+    exact h.1
+
+/-- The same for the trace the driver prints and the correspondence runs compare (`runTrace`: the history continues
+after a raising operation, which leaves both objects where they were): operation by operation, the view's output is
+the `io.BytesIO`'s output (seek values shifted), exceptions included. -/
+theorem trace_refines_all_seeks {stub nonce size enc : Bytes} {x : XorFile} (hL : Layout stub nonce size enc x)
+    (p : Nat) (hpos : x.fh.pos = stub.length + 8 + p) (ops : List Op) :
+    runTrace x ops =
+      (plainTrace { data := rollDecode nonce enc, pos := p, kind := .bytesIO } ops).map (shiftOut (stub.length + 8)) :=
+  trace_refines_all ops ⟨hL, rfl, hpos⟩ rfl
+
+/-- from the constructor call on the raw file (BytesIO or OS file) -/
+theorem history_refines_all_seeks_from_open (stub nonce size enc : Bytes) (hn : nonce.length = 4) (hs : size.length = 4)
+    (f : PyFile) (hd : f.data = stub ++ nonce ++ size ++ enc) (ops : List Op) :
+    ∃ x, mk' f stub.length = .ok x ∧
+      runTrace x ops =
+        (plainTrace { data := rollDecode nonce enc, pos := 0, kind := .bytesIO } ops).map (shiftOut (stub.length + 8)) := by
+  obtain ⟨x, hx, hL, hpos, _, _⟩ := open_layout stub nonce size enc hn hs f hd
+  exact ⟨x, hx, trace_refines_all_seeks hL 0 hpos ops⟩
+
+/-! #### the code before fix 13416c7 (`seekOld`): what it did, and why the full statement failed -/
+
+/-- BEFORE fix 13416c7 (`seekOld`).  `seek(off, whence)` of the view, exactly, for every state and every argument: the raw target was
 `off + nonce_offset + 8` (SET), `raw position + off` (CUR), `raw size + off` (END).  A non-negative raw target is taken
 — whatever its logical value `raw target − (nonce_offset + 8)`, which `tell()` then reports, also when negative; a
 negative raw target behaves as on the underlying file: SET raises ValueError (BytesIO) / OSError (OS file), CUR/END
 clamp to raw 0 on BytesIO and raise OSError on an OS file.  A raising seek leaves the object unchanged. -/
-theorem seek_exact (x : XorFile) (off : Int) (wh : Nat) :
-    (wh ≤ 2 → seek x off wh =
+theorem seek_exact_old (x : XorFile) (off : Int) (wh : Nat) :
+    (wh ≤ 2 → seekOld x off wh =
       if 0 ≤ rawTarget x off wh then .ok ((rawTarget x off wh).toNat, x.withPos (rawTarget x off wh).toNat)
       else belowStart x wh) ∧
-    (2 < wh → seek x off wh = .error .valueError) ∧
+    (2 < wh → seekOld x off wh = .error .valueError) ∧
     (0 ≤ rawTarget x off wh →
       tell (x.withPos (rawTarget x off wh).toNat) = rawTarget x off wh - ((x.nonceOff : Int) + 8)) := by
-  refine ⟨seek_exact' x off wh, seek_bad_whence x off wh, ?_⟩
+  refine ⟨seekOld_exact x off wh, seekOld_bad_whence x off wh, ?_⟩
   intro h
   simp only [tell, PyFile.tell, XorFile.withPos]
   omega
 
-/-- A seek whose logical target `t` is negative, compared with the plain file `pf` over the decoded bytes (same file
+/-- BEFORE fix 13416c7.  A seek whose logical target `t` is negative, compared with the plain file `pf` over the decoded bytes (same file
 kind).  The plain file raises (SET: ValueError / OSError; CUR, END on an OS file: OSError) or clamps to 0 (CUR, END on
-BytesIO).  The view does the same only when the RAW target `t + nonce_offset + 8` is negative; otherwise the seek
+BytesIO).  The old view did the same only when the RAW target `t + nonce_offset + 8` is negative; otherwise the seek
 succeeds and the view stands inside the stub / nonce / size dword, `tell()` reporting the negative value `t`. -/
-theorem negative_seek_exact {stub nonce size enc : Bytes} {x : XorFile} {pf : PyFile}
+theorem negative_seek_exact_old {stub nonce size enc : Bytes} {x : XorFile} {pf : PyFile}
     (hA : Abs stub nonce size enc x pf) (off : Int) (wh : Nat) (hwh : wh ≤ 2)
     (ht : logicalTarget pf off wh < 0) :
     plainStep pf (.seek off wh) = plainBelowStart pf wh ∧
     (logicalTarget pf off wh + ((stub.length : Int) + 8) < 0 →
-      stepOp x (.seek off wh) = (belowStart x wh).map fun r => (.seek r.1, r.2)) ∧
+      stepOpOld x (.seek off wh) = (belowStart x wh).map fun r => (.seek r.1, r.2)) ∧
     (0 ≤ logicalTarget pf off wh + ((stub.length : Int) + 8) →
       ∃ q : Nat, (q : Int) = logicalTarget pf off wh + ((stub.length : Int) + 8) ∧
-        stepOp x (.seek off wh) = .ok (.seek q, x.withPos q) ∧ tell (x.withPos q) = logicalTarget pf off wh) := by
+        stepOpOld x (.seek off wh) = .ok (.seek q, x.withPos q) ∧ tell (x.withPos q) = logicalTarget pf off wh) := by
   have hraw := rawTarget_abs hA off wh
   refine ⟨plainStep_negative pf off wh hwh ht, ?_, ?_⟩
   · intro h
-    simp only [stepOp]
-    rw [(seek_exact x off wh).1 hwh, if_neg (by omega)]
+    simp only [stepOpOld]
+    rw [(seek_exact_old x off wh).1 hwh, if_neg (by omega)]
   · intro h
     refine ⟨(rawTarget x off wh).toNat, by omega, ?_, ?_⟩
-    · simp only [stepOp]
-      rw [(seek_exact x off wh).1 hwh, if_pos (by omega)]
+    · simp only [stepOpOld]
+      rw [(seek_exact_old x off wh).1 hwh, if_pos (by omega)]
       rfl
-    · rw [(seek_exact x off wh).2.2 (by omega), hA.layout.off]; omega
+    · rw [(seek_exact_old x off wh).2.2 (by omega), hA.layout.off]; omega
 
-/-- Hence: on a seek with a negative logical target the view and the plain file agree exactly when the raw target is
+/-- BEFORE fix 13416c7.  Hence: on a seek with a negative logical target the old view and the plain file agree exactly when the raw target is
 negative too and the underlying file raises (SET, or any whence on an OS file) — both then raise the same exception
 and stay where they were.  In every other case the view's seek SUCCEEDS and leaves a negative logical position. -/
-theorem negative_seek_agrees_iff {stub nonce size enc : Bytes} {x : XorFile} {pf : PyFile}
+theorem negative_seek_agrees_iff_old {stub nonce size enc : Bytes} {x : XorFile} {pf : PyFile}
     (hA : Abs stub nonce size enc x pf) (hk : pf.kind = x.fh.kind) (off : Int) (wh : Nat) (hwh : wh ≤ 2)
     (ht : logicalTarget pf off wh < 0) :
-    ((∃ e, plainStep pf (.seek off wh) = .error e ∧ stepOp x (.seek off wh) = .error e) ↔
+    ((∃ e, plainStep pf (.seek off wh) = .error e ∧ stepOpOld x (.seek off wh) = .error e) ↔
       (logicalTarget pf off wh + ((stub.length : Int) + 8) < 0 ∧ (wh = 0 ∨ x.fh.kind = .osFile))) ∧
     (¬ (logicalTarget pf off wh + ((stub.length : Int) + 8) < 0 ∧ (wh = 0 ∨ x.fh.kind = .osFile)) →
-      ∃ v x', stepOp x (.seek off wh) = .ok (.seek v, x') ∧ tell x' < 0) := by
-  obtain ⟨hp, hlo, hhi⟩ := negative_seek_exact hA off wh hwh ht
+      ∃ v x', stepOpOld x (.seek off wh) = .ok (.seek v, x') ∧ tell x' < 0) := by
+  obtain ⟨hp, hlo, hhi⟩ := negative_seek_exact_old hA off wh hwh ht
   have hoff := hA.layout.off
   by_cases hneg : logicalTarget pf off wh + ((stub.length : Int) + 8) < 0
   · have hv := hlo hneg
@@ -652,18 +728,18 @@ theorem negative_seek_agrees_iff {stub nonce size enc : Bytes} {x : XorFile} {pf
     · subst hw0
       have e1 : plainStep pf (.seek off 0) = .error x.fh.negSeekExc := by
         rw [hp]; simp only [plainBelowStart, if_true, PyFile.negSeekExc, hk]
-      have e2 : stepOp x (.seek off 0) = .error x.fh.negSeekExc := by
+      have e2 : stepOpOld x (.seek off 0) = .error x.fh.negSeekExc := by
         rw [hv]; simp only [belowStart, if_true]; rfl
       refine ⟨⟨fun _ => ⟨hneg, Or.inl rfl⟩, fun _ => ⟨_, e1, e2⟩⟩, fun h => absurd ⟨hneg, Or.inl rfl⟩ h⟩
     · cases hkind : x.fh.kind with
       | osFile =>
         have e1 : plainStep pf (.seek off wh) = .error .osError := by
           rw [hp]; simp only [plainBelowStart, if_neg hw0, hk, hkind]
-        have e2 : stepOp x (.seek off wh) = .error .osError := by
+        have e2 : stepOpOld x (.seek off wh) = .error .osError := by
           rw [hv]; simp only [belowStart, if_neg hw0, hkind]; rfl
         refine ⟨⟨fun _ => ⟨hneg, Or.inr rfl⟩, fun _ => ⟨_, e1, e2⟩⟩, fun h => absurd ⟨hneg, Or.inr rfl⟩ h⟩
       | bytesIO =>
-        have e2 : stepOp x (.seek off wh) = .ok (.seek 0, x.withPos 0) := by
+        have e2 : stepOpOld x (.seek off wh) = .ok (.seek 0, x.withPos 0) := by
           rw [hv]; simp only [belowStart, if_neg hw0, hkind]; rfl
         refine ⟨⟨?_, ?_⟩, fun _ => ⟨0, _, e2, ?_⟩⟩
         · rintro ⟨e, _, h2⟩
@@ -676,16 +752,6 @@ theorem negative_seek_agrees_iff {stub nonce size enc : Bytes} {x : XorFile} {pf
     refine ⟨⟨?_, fun h => absurd h.1 hneg⟩, fun _ => ⟨q, _, hs, by rw [htell]; exact ht⟩⟩
     rintro ⟨e, _, h2⟩
     rw [hs] at h2; cases h2
-
-/-- `history_refines` without the hypothesis on seeks (an exception of the plain file being matched by the same
-exception of the view).  It is FALSE for the code as it is: see `history_refines_all_seeks_false`. -/
-def history_refines_all_seeks : Prop :=
-  ∀ (stub nonce size enc : Bytes) (x : XorFile), Layout stub nonce size enc x →
-    ∀ (p : Nat), x.fh.pos = stub.length + 8 + p → ∀ (ops : List Op),
-      match plainRun { data := rollDecode nonce enc, pos := p, kind := x.fh.kind } ops with
-      | .ok (outs, pf') =>
-        run x ops = .ok (outs.map (Out.shift (stub.length + 8)), x.withPos (stub.length + 8 + pf'.pos))
-      | .error e => run x ops = .error e
 
 /-! ### the hypotheses are satisfiable / concrete instances -/
 
@@ -717,22 +783,24 @@ example : u32 (C20.xor [1, 2, 3, 4] [7, 2, 3, 4]) = 6 := by decide
 example : PeHeaderAt0 (List.replicate 60 0 ++ [64, 0, 0, 0] ++ [0x50, 0x45, 0, 0] ++ [0x64, 0x86] ++ List.replicate 18 0) 1024 64 :=
   ⟨by decide, by decide, by decide, by decide, by decide, Or.inl (by decide)⟩
 
-/-- The counterexample to `history_refines_all_seeks` (stub of 4 bytes, so logical 0 is raw 12): `seek(-1)` raises
-ValueError on a BytesIO over the decoded bytes, but succeeds on the view — it returns raw offset 11, `tell()` then
-reports −1 and the next read starts inside the size dword. -/
-theorem history_refines_all_seeks_false : ¬ history_refines_all_seeks := by
+/-- The full statement separates the repaired code from the code before fix 13416c7 (stub of 4 bytes, so logical 0 is
+raw 12): `seek(-1)` raises ValueError on `io.BytesIO` over the decoded bytes — and on the current view — but succeeded
+on the old view: it returned raw offset 11, `tell()` then reported −1 and the next read started inside the size dword. -/
+theorem history_refines_all_seeks_refutes_old : ¬ HistoryRefinesAllSeeks runOld := by
   intro h
   have h1 := h [0x90, 0xff, 0xff, 0xff] [1, 2, 3, 4] [9, 9, 9, 9] [0x11, 0x22, 0x33, 0x44, 0x55, 0x66] exView
     ⟨rfl, rfl, rfl, rfl, rfl⟩ 0 rfl [.seek (-1) 0]
-  have hp : plainRun { data := rollDecode [1, 2, 3, 4] [0x11, 0x22, 0x33, 0x44, 0x55, 0x66], pos := 0, kind := exView.fh.kind }
+  have hp : plainRun { data := rollDecode [1, 2, 3, 4] [0x11, 0x22, 0x33, 0x44, 0x55, 0x66], pos := 0, kind := .bytesIO }
       [.seek (-1) 0] = .error .valueError := rfl
   rw [hp] at h1
-  have hr : run exView [.seek (-1) 0] = .ok ([.seek 11], exView.withPos 11) := rfl
+  have hr : runOld exView [.seek (-1) 0] = .ok ([.seek 11], exView.withPos 11) := rfl
   rw [hr] at h1
   cases h1
 
-example : run exView [.seek (-1) 0, .tell, .seek (-13) 1, .tell] =
+example : runOld exView [.seek (-1) 0, .tell, .seek (-13) 1, .tell] =
     .ok ([.seek 11, .pos (-1), .seek 0, .pos (-12)], exView.withPos 0) := by rfl
+example : runTrace exView [.seek (-1) 0, .tell, .seek (-13) 1, .tell, .seek (-100) 2, .seek 0 7] =
+    [.error .valueError, .ok (.pos 0), .ok (.seek 12), .ok (.pos 0), .ok (.seek 12), .error .valueError] := by rfl
 
 /-! a complete stage that meets the byte-level hypotheses of `detect_correct_real_clean` (buffer size 7, OS file) -/
 def exPlain : Bytes := List.replicate 60 0 ++ [64, 0, 0, 0] ++ [0x50, 0x45, 0, 0] ++ [0x64, 0x86] ++ List.replicate 17 0 ++ [1]
